@@ -282,23 +282,28 @@ impl Rep {
         }
     }
 
-    /// Starts a new case. Returns false when the case must be skipped (replay mode, other index).
+    /// Starts a new case (always returns true; kept as a bool so that call sites read `if !rep.tick() { return }`).
     #[inline]
     pub fn tick(&mut self) -> bool {
+        // Replay mode re-executes the whole shard (so that the event numbering is exactly that of the recorded run,
+        // whatever the control flow of the monitor) and only *reports* for the recorded event index, see `fail`.
         self.idx += 1;
         match self.replay {
-            None => {
-                self.evals += 1;
-                true
-            }
+            None => self.evals += 1,
             Some((s, i)) => {
                 if s == self.shard && i == self.idx {
                     self.evals += 1;
-                    true
-                } else {
-                    false
                 }
             }
+        }
+        true
+    }
+
+    #[inline]
+    fn replay_muted(&self) -> bool {
+        match self.replay {
+            None => false,
+            Some((s, i)) => !(s == self.shard && i == self.idx),
         }
     }
 
@@ -352,6 +357,9 @@ impl Rep {
     /// (decided by the caller through the deformed model); it only counts as known when the
     /// committed known_findings.json lists that id as open.
     pub fn fail(&mut self, sig: &str, finding: Option<&str>, detail: impl FnOnce() -> String) {
+        if self.replay_muted() {
+            return;
+        }
         if let Some(f) = finding {
             if self.known_open.contains(f) {
                 let e = self.known.entry(f.to_string()).or_insert((0, String::new()));
